@@ -14,6 +14,7 @@ from .config_parser import BLDFMConfig, TowerConfig
 from .pbl_model import vertical_profiles
 from .solver import steady_state_transport_solver
 from .utils import compute_wind_fields, ideal_source, get_logger
+from . import _verif
 
 logger = get_logger("interface")
 
@@ -68,6 +69,7 @@ def run_bldfm_single(
     dom = config.domain
     sol = config.solver
     met_step = config.met.get_step(met_index)
+    _verif.emit("single_begin", tower=tower.name, step=met_index, cache=cache is not None)
 
     # Step 1: wind components
     u_wind, v_wind = compute_wind_fields(met_step["wind_speed"], met_step["wind_dir"])
@@ -126,6 +128,7 @@ def run_bldfm_single(
         cache=cache,
     )
 
+    _verif.emit("single_end", tower=tower.name, step=met_index)
     return {
         "grid": grid,
         "conc": conc,
@@ -163,6 +166,7 @@ def run_bldfm_timeseries(
 
     cache = _make_cache(config)
     results = []
+    _verif.emit("series_begin", tower=tower.name, n=n, cache=cache is not None)
     for i in range(n):
         logger.debug("  timestep %d/%d", i + 1, n)
         result = run_bldfm_single(
@@ -170,6 +174,7 @@ def run_bldfm_timeseries(
         )
         results.append(result)
 
+    _verif.emit("series_end", tower=tower.name, n=len(results))
     return results
 
 
@@ -220,6 +225,7 @@ def _worker_single(args):
     from .fft_manager import reset_fft_manager
 
     reset_fft_manager()
+    _verif.emit("worker_init", kind="single", tower=tower.name, step=met_index, threads=cfg.NUM_THREADS)
     return run_bldfm_single(config, tower, met_index=met_index)
 
 
@@ -234,6 +240,7 @@ def _worker_timeseries(args):
     from .fft_manager import reset_fft_manager
 
     reset_fft_manager()
+    _verif.emit("worker_init", kind="series", tower=tower.name, step=-1, threads=cfg.NUM_THREADS)
     return tower.name, run_bldfm_timeseries(config, tower)
 
 
@@ -278,6 +285,7 @@ def run_bldfm_parallel(
 
     n_towers = len(config.towers)
     n_time = config.met.n_timesteps
+    _verif.emit("parallel_begin", strategy=parallel_over, workers=max_workers, towers=[t.name for t in config.towers], n_time=n_time)
 
     logger.info(
         "Parallel run: %d towers x %d timesteps, %d workers, strategy=%s",
@@ -322,4 +330,5 @@ def run_bldfm_parallel(
             f"Choose 'towers', 'time', or 'both'."
         )
 
+    _verif.emit("parallel_end", keys=list(results), lens=[len(v) for v in results.values()])
     return results
